@@ -13,8 +13,8 @@ import (
 // ShapeOpts bounds the generated shapes.
 type ShapeOpts struct {
 	MaxAlt, MaxEmbed, MaxAttach int
-	MaxContent                  int    // upper bound for a content length
-	CRLFOnly                    bool   // text content uses CRLF line breaks only
+	MaxContent                  int      // upper bound for a content length
+	CRLFOnly                    bool     // text content uses CRLF line breaks only
 	Encs                        []string // message/part encodings to draw from
 	FileEncs                    []string // file encodings to draw from
 	Sources                     []string // file sources to draw from
